@@ -301,7 +301,43 @@ def check(ctx, module, required, not_translated=None):
                 ctx.notes.append("link[%s] %s: %s; discharged by %s" % (module, fn, "; ".join(why)[:300], thm))
         else:
             ctx.broken.append("link[%s]: translated source of %s = model: %s" % (module, fn, "; ".join(why)))
+    if ctx.tier == "thorough" and not ctx.replay_mode and res.ok:
+        _coqchk(ctx, module, res)
     return res
+
+
+def _coqchk(ctx, module, res):
+    """thorough tier: independent re-check (coqchk) of the compiled link files and everything they depend on"""
+    for fname in MODULES[module]["files"]:
+        mod = "UVS." + fname[:-2]
+        ob = "coqchk:%s:%s" % (module, mod)
+        ctx.obligations.append(ob)
+        try:
+            p = subprocess.run(["coqchk", "-o", "-silent", "-R", coqrun.COQ, "UV", "-R", res.dir, "UVS", mod], capture_output=True, text=True,
+                               timeout=2400, cwd=coqrun.COQ)
+        except subprocess.TimeoutExpired:
+            ctx.notes.append("coqchk on %s timed out (not counted as discharged)" % mod)
+            continue
+        ctx.checker_cmds.append("coqchk -o -silent -R coq UV -R <linkdir> UVS " + mod)
+        out = p.stdout + p.stderr
+        axs, inblock = [], False
+        for line in out.splitlines():
+            if line.startswith("* Axioms:"):
+                inblock = True
+                continue
+            if inblock:
+                if line.startswith("*"):
+                    inblock = False
+                elif line.strip():
+                    axs.append(line.strip())
+        ctx.extra.setdefault("coqchk_axioms", {})[mod] = axs
+        unsafe = [l for l in out.splitlines() if ("type-in-type" in l or "unsafe (co)fixpoints" in l or "positivity is assumed" in l) and "<none>" not in l]
+        badax = [a for a in axs if a.split(".")[-1] not in ("functional_extensionality_dep", "sig_not_dec", "sig_forall_dec", "classic")
+                 and not a.startswith(("Coq.Floats.", "Coq.Numbers.Cyclic.Int63.", "Coq.Numbers.Cyclic.Abstract"))]
+        if p.returncode != 0 or unsafe or badax:
+            ctx.broken.append("coqchk on %s: rc=%d unsafe=%s unexpected axioms=%s %s" % (mod, p.returncode, unsafe, badax, out[-200:] if p.returncode else ""))
+        else:
+            ctx.discharged.append(ob)
 
 
 def coq_eval(ctx, res, name, text, timeout=900, what=None):
